@@ -391,6 +391,9 @@ def add_mutations(rng, c, profile):
                         put(t, "proof_mut_v", args, "reject")
                 if scheme == "ipa" and len(sel) == 1 and c.fields["bound.%d" % sel[0]][0] == "none":
                     put(t, "attack", ["padded_key"], "reject")
+                if scheme in ("ligero_uni", "ligero_ml"):
+                    # authentic columns and paths of the neighbouring leaves under a rotated row combination (cyclic code)
+                    put(t, "attack", ["rs_transplant"], "reject")
             if profile in ("c11",):
                 if any(not c.meta["const"][i] for i in sel):
                     put(t, "sponge_pre", [rf_uniform(rng, p)], "reject")
@@ -600,7 +603,11 @@ def make_c19_case(rng, cid, scheme, tier, rung):
         if scheme == "hyrax" and nv % 2:
             nv += 1
         opts["num_vars"] = nv
+    if scheme == "ligero_uni" and rung > 8:
+        opts["n"] = 1
     c = make_case(rng, cid, scheme, tier, opts)
+    if scheme == "ligero_uni" and rung > 8:
+        c.set("lig", 128, 4, rng.choice([0, 1]))
     n = c.meta["n"]
     if scheme in UNIVARIATE:
         for i in range(n):
@@ -626,7 +633,9 @@ def gen(rng, tier, profile, count, schemes=ALL):
         k = 0
         while len(cases) < count:
             scheme = schemes[k % len(schemes)]
-            if scheme in UNIVARIATE:
+            if scheme == "ligero_uni" and tier != "quick" and rng.random() < 0.4:
+                rung = rng.randint(9, 14)            # beyond the ladder: where an unbalanced matrix becomes a linear-size proof
+            elif scheme in UNIVARIATE:
                 rung = rng.randint(1, 8 if tier != "quick" else 6)
             elif scheme == "pst13":
                 rung = rng.randint(2, 12 if tier != "quick" else 6)
@@ -680,6 +689,9 @@ def gen(rng, tier, profile, count, schemes=ALL):
                         lc_opts={"shared_values": False})
         elif profile == "c01":
             add_history(rng, c, kinds=("single", "batch", "batch"), perms=True)
+        elif profile == "c05":
+            # batches over commitment / polynomial lists in arbitrary order (the verifier must pair by label)
+            add_history(rng, c, kinds=("batch", "batch", "single"), perms=True)
         elif profile == "c12":
             add_history(rng, c, kinds=("single", "batch", "lc"), nops=3, lc_opts={"shared_values": False})
         else:
